@@ -8,7 +8,8 @@
    deferred close), the caller's context (a flag), one derived context per member (created by
    the sender, done when its own cancel function was called or the caller's context is done),
    one reader per member (not handed out / open / closed / closed twice).
-   Environment: the caller starts the call, cancels its context, closes the returned reader;
+   Environment: the caller starts the call, cancels its context, uses the returned reader
+   (Read - part of the content, or up to io.EOF / a read error - and Descriptor), closes it;
    a member's call returns when the environment lets it (a gate that is opened with the
    answer), or - for a member that only returns after its context is cancelled - when its
    context is done.
@@ -224,7 +225,13 @@ Definition quiescent (s : state) : bool := match istep s with [] => true | _ => 
 
 (* ---------- environment steps ---------- *)
 
-Inductive ev := EStart | ERet (i : mem) (a : answer) | ECancel | EClose.
+(* What the caller does with the returned reader before closing it.  blobReader embeds the
+   member's ociregistry.BlobReader and defines Close only, so Read and Descriptor are the
+   member reader's own methods: none of them is a step of the protocol (no context, reader or
+   goroutine changes), whether the Read delivers bytes, io.EOF or an error. *)
+Inductive use := UPartial | UDrain | UDesc.
+
+Inductive ev := EStart | ERet (i : mem) (a : answer) | ECancel | EClose | EUse (u : use).
 
 Definition estep (e : ev) (s : state) : option state :=
   match e with
@@ -240,10 +247,17 @@ Definition estep (e : ev) (s : state) : option state :=
       | M_returned, Blob, ROk _, Cl_none => Some (with_cl Cl_inner s)
       | _, _, _, _ => None
       end
+  | EUse _ =>
+      (* possible while the caller holds the returned reader; leaves every component alone *)
+      match main s, st s, res s, cl s with
+      | M_returned, Blob, ROk _, Cl_none => Some s
+      | _, _, _, _ => None
+      end
   end.
 
 Definition all_events : list ev :=
-  [EStart; ERet M0 Succ; ERet M0 Fail; ERet M1 Succ; ERet M1 Fail; ECancel; EClose].
+  [EStart; ERet M0 Succ; ERet M0 Fail; ERet M1 Succ; ERet M1 Fail; ECancel; EClose;
+   EUse UPartial; EUse UDrain; EUse UDesc].
 
 Definition env_steps (s : state) : list state :=
   flat_map (fun e => match estep e s with Some s' => [s'] | None => [] end) all_events.
